@@ -1598,14 +1598,14 @@ func c04Normalize(c *Ctx, rule string) {
 				x, y := tm.Args[0], tm.Args[1]
 				switch {
 				case tm.isBin("<") && !cd.Taken && x.isParam(1) && isF(y, dr.minIndex), // !(index < min)
-					tm.isBin("<=") && cd.Taken && isF(x, dr.minIndex) && y.isParam(1), // min ≤ index
+					tm.isBin("<=") && cd.Taken && isF(x, dr.minIndex) && y.isParam(1),  // min ≤ index
 					tm.isBin("<=") && !cd.Taken && x.isParam(1) && isF(y, dr.minIndex), // !(index ≤ min)
-					tm.isBin("<") && cd.Taken && isF(x, dr.minIndex) && y.isParam(1): // min < index
+					tm.isBin("<") && cd.Taken && isF(x, dr.minIndex) && y.isParam(1):   // min < index
 					lo = true
 				case tm.isBin("<") && !cd.Taken && isF(x, dr.maxIndex) && y.isParam(1), // !(max < index)
-					tm.isBin("<=") && cd.Taken && x.isParam(1) && isF(y, dr.maxIndex), // index ≤ max
+					tm.isBin("<=") && cd.Taken && x.isParam(1) && isF(y, dr.maxIndex),  // index ≤ max
 					tm.isBin("<=") && !cd.Taken && isF(x, dr.maxIndex) && y.isParam(1), // !(max ≤ index)
-					tm.isBin("<") && cd.Taken && x.isParam(1) && isF(y, dr.maxIndex): // index < max
+					tm.isBin("<") && cd.Taken && x.isParam(1) && isF(y, dr.maxIndex):   // index < max
 					hi = true
 				}
 			}
@@ -2467,7 +2467,6 @@ func c04SparseEntries(c *Ctx, rule string) {
 	}
 	c.R.floor(rule, "updates of the sparse store's map", n, 2)
 }
-
 
 // c04AddPaths: the obligations that make a store a faithful map from index to accumulated weight on the ADD side —
 // entry points, window and shift discipline of the dense family, the paginated store's page table and page use, the
